@@ -6,7 +6,7 @@
 //! nothing is taken from allsorts' `lut.rs`.
 //!
 //! @funcs woff2::PackedU16::read, woff2::U32Base128::read, woff2::TableDirectoryEntry::read_dep, woff2::TransformedGlyphTable::read, Woff2GlyfTable::read_dep, Woff2GlyfTable::decode_simple_glyph, compute_end_pts_of_contours, decode_coordinates, woff2::lut::COORD_LUT, XYTriplet::{dx,dy}, BitSlice::get, Woff2HmtxTable::read_dep, SimpleGlyph::bounding_box
-//! @out brotli decompression, Woff2Font::read, collection directory, the eager table provider (HashMap), loca reconstruction, composite glyph records, glyphs with more than 2 points or more than 1 contour (2 contours in the thorough tier), more than 2 glyphs (32 EMPTY glyphs with a fully concrete table already give no answer in 10 min, so the bbox-bitmap length formula is only exercised for 1 glyph)
+//! @out brotli decompression, Woff2Font::read, collection directory, the eager table provider (HashMap), loca reconstruction, composite glyphs with more than one component or scale fields, glyphs with more than 2 points or more than 1 contour (2 contours in the thorough tier), more than 2 glyphs (32 EMPTY glyphs with a fully concrete table already give no answer in 10 min, so the bbox-bitmap length formula is only exercised for 1 glyph)
 
 use crate::util::*;
 use allsorts::binary::read::{ReadArrayCow, ReadScope};
@@ -440,6 +440,65 @@ fn c11_glyf_two_points_computed_bbox() {
     assert!(b.x_min == x0.min(x1) && b.x_max == x0.max(x1));
     assert!(b.y_min == y0.min(y1) && b.y_max == y0.max(y1));
     kani::cover!(x0 != x1 && y0 != y1, "non-degenerate box");
+    std::mem::forget(table);
+}
+
+/// A composite glyph in a transformed glyf table: the component record is taken from the
+/// composite stream, the instruction length (255UInt16) from the GLYPH stream, the
+/// instructions from the instruction stream, and the mandatory explicit bounding box
+/// from the bbox stream.
+// @bound 1 composite glyph with one component (flags 0x0102: xy values, byte arguments, WE_HAVE_INSTRUCTIONS; or 0x0002 without instructions), symbolic glyph index, arguments, bbox and 2 instruction bytes
+#[kani::proof]
+#[kani::unwind(10)]
+fn c11_composite_glyph() {
+    let with_instr: bool = kani::any();
+    // header 36 | nContour 2 | composite 6 | glyph stream 1 | bitmap 4 + bbox 8 | instructions 2
+    let mut buf = [0u8; 36 + 2 + 6 + 1 + 12 + 2];
+    put16(&mut buf, 4, 1);
+    put32(&mut buf, 8, 2); // nContour stream
+    put32(&mut buf, 20, 1); // glyph stream
+    put32(&mut buf, 24, 6); // composite stream
+    put32(&mut buf, 28, 12); // bbox stream
+    put32(&mut buf, 32, 2); // instruction stream
+    put16(&mut buf, 36, 0xFFFF); // numberOfContours = -1
+    let glyph_at = 38; // the streams follow in header order: nContour, nPoints(0), flags(0), glyph, composite
+    buf[glyph_at] = 2; // instruction length, only read when the component asks for instructions
+    let comp_at = 39;
+    put16(&mut buf, comp_at, if with_instr { 0x0102 } else { 0x0002 });
+    let gid: u16 = kani::any();
+    let a1: u8 = kani::any();
+    let a2: u8 = kani::any();
+    put16(&mut buf, comp_at + 2, gid);
+    buf[comp_at + 4] = a1;
+    buf[comp_at + 5] = a2;
+    let bitmap_at = 45;
+    buf[bitmap_at] = 0x80;
+    let bb: [u8; 8] = kani::any();
+    let mut k = 0;
+    while k < 8 {
+        buf[bitmap_at + 4 + k] = bb[k];
+        k += 1;
+    }
+    let ins: [u8; 2] = kani::any();
+    buf[57] = ins[0];
+    buf[58] = ins[1];
+    let loca = LocaTable::empty();
+    let table = ReadScope::new(&buf).read_dep::<Woff2GlyfTable>((&ENTRY, &loca)).unwrap();
+    assert!(table.records().len() == 1);
+    match &table.records()[0] {
+        GlyfRecord::Parsed(Glyph::Composite(c)) => {
+            assert!(c.glyphs.len() == 1);
+            assert!(c.glyphs[0].glyph_index == gid);
+            if with_instr {
+                assert!(c.instructions.len() == 2 && c.instructions[0] == ins[0] && c.instructions[1] == ins[1]);
+            } else {
+                assert!(c.instructions.is_empty());
+            }
+            assert!(c.bounding_box.x_min == be16(&bb, 0) as i16 && c.bounding_box.y_max == be16(&bb, 6) as i16);
+            kani::cover!(with_instr, "hinted composite");
+        }
+        _ => assert!(false),
+    }
     std::mem::forget(table);
 }
 
